@@ -20,7 +20,9 @@ RULE = ('(1) every built-in atomic/list type of XSD 1.0 and 1.1 x a 260-entry bo
         'separators, inner blanks, exponent forms, empty string, each kind of surrounding whitespace) - exhaustive '
         'cross product; (2) Hypothesis mutations (insert/delete/replace from a type-specific alphabet) of catalogue '
         'entries; (3) Hypothesis restriction chains (1-2 levels; bounds, digits, length family, enumeration, pattern, '
-        'whiteSpace), lists with length facets and unions, x boundary values. Each case is checked for acceptance '
+        'whiteSpace), lists with length facets and unions, x boundary values; (4) documents holding several values of '
+        'different pattern-restricted unions / lists of them / atomic restrictions: each value is judged by the facets of '
+        'its own type whatever precedes it. Each case is checked for acceptance '
         '(element, attribute and XsdSimpleType routes), decoded value (decimal_type, datetime_types, binary_types) '
         'and encode/decode round trip. Non-trivial: some one-character edit of the text flips the reference verdict, '
         'or the type has a user facet; distinct = distinct (version, type, text)')
@@ -456,6 +458,99 @@ def check_list_union(ver, kind, spec, st):
     return out
 
 
+COMBO_PATTERNS = [None, r'[0-9]+', r'[a-z]+', r'.{1,3}', r'1.*', r'true|false|[0-9]', r'[0-9]{4}-[0-9]{2}-[0-9]{2}', r'[^1]*']
+COMBO_MEMBERS = ['int', 'boolean', 'date', 'NCName', 'decimal']
+COMBO_POOL = ['1', '01', 'true', 'false', 'abc', '2000-01-01', '12345', 'x1', '-1', 'ab', '1.5', '10', 'zz9', '0']
+
+
+def combo_ref(spec, text, v11):
+    """Reference verdict of one value of a combo type (no surrounding whitespace in COMBO_POOL)."""
+    kind, members, pat = spec
+    items = text.split(' ') if kind == 'lu' else [text]
+    for it in items:
+        oks = [dt.check(m, it, v11)[0] for m in members]
+        if any(o is None for o in oks):
+            return None
+        if not any(oks):
+            return False
+        if pat is not None and not _re.fullmatch(pat, it):
+            return False
+    return True
+
+
+def combo_xsd(specs):
+    parts = []
+    for i, (kind, members, pat) in enumerate(specs):
+        mt = ' '.join('xs:' + m for m in members)
+        p = '<xs:pattern value="%s"/>' % escape(pat) if pat is not None else ''
+        if kind == 'a':
+            parts.append('<xs:simpleType name="T%d"><xs:restriction base="xs:%s">%s</xs:restriction></xs:simpleType>' % (i, members[0], p))
+        else:
+            parts.append('<xs:simpleType name="U%d"><xs:union memberTypes="%s"/></xs:simpleType>' % (i, mt))
+            inner = ('<xs:simpleType name="%s%d"><xs:restriction base="U%d">%s</xs:restriction></xs:simpleType>'
+                     % ('T' if kind == 'u' else 'I', i, i, p))
+            parts.append(inner)
+            if kind == 'lu':
+                parts.append('<xs:simpleType name="T%d"><xs:list itemType="I%d"/></xs:simpleType>' % (i, i))
+    decl = ''.join('<xs:element name="v%d" type="T%d" minOccurs="0" maxOccurs="unbounded"/>' % (i, i) for i in range(len(specs)))
+    attrs = ''.join('<xs:attribute name="a%d" type="T%d"/>' % (i, i) for i in range(len(specs)))
+    glob = ''.join('<xs:element name="g%d" type="T%d"/>' % (i, i) for i in range(len(specs)))
+    return ('<xs:schema xmlns:xs="%s">%s<xs:element name="r"><xs:complexType><xs:sequence>%s</xs:sequence>%s'
+            '</xs:complexType></xs:element>%s</xs:schema>' % (XS, ''.join(parts), decl, attrs, glob))
+
+
+def check_combo(ver, specs, values, attrs, st):
+    """Several values of different facet-restricted types (unions with patterns, lists of them, atomic
+    restrictions) in ONE document: every value is judged by the facets in force for ITS type, whatever
+    precedes it in the document.  values: [(type index, text)], attrs: [(type index, text)] unique by index."""
+    out = []
+    v11 = ver == '11'
+    s = head(ver)(combo_xsd(specs))
+    values = sorted(values, key=lambda v: v[0])
+    refs = [combo_ref(specs[i], t, v11) for i, t in values]
+    arefs = [combo_ref(specs[i], t, v11) for i, t in attrs]
+    st.case()
+    if any(r is None for r in refs + arefs):
+        st.cls('unspecified')
+        return out
+    if len(values) + len(attrs) >= 2 and any(sp[2] is not None and sp[0] != 'a' for sp in specs):
+        st.nt((ver, str(specs), str(values), str(attrs)))
+    doc = '<r%s>%s</r>' % (''.join(' a%d=%s' % (i, quoteattr(t)) for i, t in attrs),
+                           ''.join('<v%d>%s</v%d>' % (i, escape(t), i) for i, t in values))
+    inp = {'specs': specs, 'values': values, 'attrs': attrs, 'doc': doc}
+    errs = list(s.iter_errors(doc))
+    exp_valid = all(refs) and all(arefs)
+    st.cls('combo_all_valid' if exp_valid else 'combo_all_invalid' if not any(refs + arefs) else 'combo_mixed')
+    if (not errs) != exp_valid:
+        out.append(rec('accept_combined_document', ver, 'combo', doc, 'document', exp_valid, not errs, inp))
+        return out
+    # positions of element values reported as invalid
+    exp_bad = sorted(k + 1 for k, r in enumerate(refs) if not r)
+    got_bad = set()
+    root = s.elements['r']
+    import xml.etree.ElementTree as ET
+    tree = ET.fromstring(doc)
+    for e in errs:
+        if e.elem is not None and e.elem.tag != 'r':
+            got_bad.add(e.path)
+    kids = list(tree)
+    exp_paths = set()
+    for k in exp_bad:
+        tag = kids[k - 1].tag
+        same = [j for j, c in enumerate(kids) if c.tag == tag]
+        exp_paths.add('/r/%s' % tag if len(same) == 1 else '/r/%s[%d]' % (tag, same.index(k - 1) + 1))
+    if got_bad != exp_paths:
+        out.append(rec('combined_document_errors', ver, 'combo', doc, 'document', sorted(exp_paths), sorted(got_bad), inp))
+        return out
+    # each value alone has the same verdict
+    for (i, t), r in zip(values + attrs, refs + arefs):
+        got = s.is_valid('<g%d>%s</g%d>' % (i, escape(t), i))
+        if got != r:
+            out.append(rec('accept_restricted_union', ver, 'combo', t, 'element', r, got, dict(inp, type=specs[i])))
+            break
+    return out
+
+
 # ------------------------------------------------------------------------------------ protocol
 
 def shards(tier, seed):
@@ -469,6 +564,7 @@ def shards(tier, seed):
         out.append(('restr', ver, 0, tier, seed))
         out.append(('restr', ver, 1, tier, seed))
         out.append(('lu', ver, tier, seed))
+        out.append(('combo', ver, tier, seed))
     return out
 
 
@@ -527,6 +623,26 @@ def run_shard(desc):
             st_.sample({'ver': ver, 'base': base, 'facets': [f1, f2]}, cap=4)
             return check_restriction(ver, base, f1, f2, st_)
         core.hyp_drive(st, PROPERTY, strat, body, n, core.derive_seed(seed, 'C02restr', ver, k))
+    elif desc[0] == 'combo':
+        _, ver, tier, seed = desc
+        n = 1500 if tier == 'thorough' else 150
+        spec = hst.one_of(
+            hst.tuples(hst.sampled_from(['u', 'u', 'lu']), hst.lists(hst.sampled_from(COMBO_MEMBERS), min_size=1, max_size=3,
+                                                                 unique=True), hst.sampled_from(COMBO_PATTERNS)),
+            hst.tuples(hst.just('a'), hst.lists(hst.sampled_from(['string', 'integer', 'token']), min_size=1, max_size=1),
+                       hst.sampled_from(COMBO_PATTERNS)))
+        strat = hst.lists(spec, min_size=2, max_size=4).flatmap(lambda sp: hst.tuples(
+            hst.just(sp),
+            hst.lists(hst.tuples(hst.integers(0, len(sp) - 1), hst.sampled_from(COMBO_POOL)), min_size=1, max_size=5),
+            hst.lists(hst.tuples(hst.integers(0, len(sp) - 1), hst.sampled_from(COMBO_POOL)), max_size=2,
+                      unique_by=lambda v: v[0])))
+
+        def body(v, st_):
+            specs, values, attrs = v
+            specs = [(k_, list(m), p) for k_, m, p in specs]
+            st_.sample({'ver': ver, 'types': [str(x) for x in specs], 'values': values, 'attrs': attrs}, cap=3)
+            return check_combo(ver, specs, [list(x) for x in values], [list(x) for x in attrs], st_)
+        core.hyp_drive(st, PROPERTY, strat, body, n, core.derive_seed(seed, 'C02combo', ver))
     else:
         _, ver, tier, seed = desc
         n = 150 if tier == 'thorough' else 40
@@ -560,6 +676,8 @@ def replay(record):
     elif k in ('accept_union', 'union_first_member'):
         recs = check_list_union(inp['ver'], 'union', inp['type'].split('|'), st)
         recs = [r for r in recs if r['input']['text'] == inp['text']]
+    elif k in ('accept_combined_document', 'combined_document_errors', 'accept_restricted_union'):
+        recs = check_combo(inp['ver'], [tuple(x) for x in inp['specs']], inp['values'], inp['attrs'], st)
     else:
         recs = check_builtin(inp['ver'], inp['type'], inp['text'], st)
     return [r for r in recs if r['kind'] == k]
